@@ -372,7 +372,11 @@ async def _drive_interest(rig, case, out):
         out.append((pfx + f'receive-raises:{al.exc_label(e)}@{al.lib_site(e)}',
                     f'{al.exc_label(e)} escaped _receive on an incoming Interest'))
         return
-    await al.sleep_until(loop, 150)
+    # wait until every configured validator latency has elapsed (the thorough tier uses latencies beyond 150 ms)
+    horizon = 150
+    if cfg[0] in ('route', 'app') and isinstance(cfg[2], (int, float)):
+        horizon = max(horizon, int(cfg[2]) + 50)
+    await al.sleep_until(loop, horizon)
     await al.settle(loop)
 
     exp = expected_interest(case)
